@@ -25,6 +25,7 @@
 //!   rmfab <s> <idx>              RemoveFabric
 //!   revoke <s>                   RevokeCommissioning
 //!   bcw <s> <n>                  write of the Breadcrumb attribute
+//!   gkm <s> <gid>                write of the GroupKeyMap attribute (fabric-scoped, content not modelled)
 //!   tick <secs>                  virtual time passes
 //!   poll                         the 1-second timeout poll of the interaction model runs once
 //!   flush                        the background task persists the resumption cache
@@ -612,7 +613,7 @@ impl World {
         }
         let crypto = test_only_crypto();
         // ops that arrive over a session: the IM runs `check_timeouts(Some(exchange))` first (im.rs:758)
-        let sess_ops = ["open", "arm", "csr", "root", "addnoc", "updnoc", "acl", "grp", "label", "net", "rmnet", "complete", "rmfab", "revoke", "bcw"];
+        let sess_ops = ["open", "arm", "csr", "root", "addnoc", "updnoc", "acl", "grp", "label", "net", "rmnet", "complete", "rmfab", "revoke", "bcw", "gkm"];
         let mut mode: Option<SessionMode> = None;
         let sid = num(1) as u32;
         if sess_ops.contains(&w[0]) {
@@ -873,6 +874,26 @@ impl World {
                                     persist.store(fabric)?;
                                 }
                             }
+                        }
+                        Ok(())
+                    })();
+                    st(r)
+                })
+            }
+            "gkm" => {
+                // grp_key_mgmt.rs:193 `set_group_key_map` (list replace with one entry): a fabric-scoped write
+                // whose content the model does not track
+                let gid = num(2) as u16;
+                let kv = self.matter.kv(self.kv.clone());
+                let mut persist = FabricPersist::new(&kv);
+                self.matter.with_state(|state| {
+                    let p = state.verif_parts();
+                    let Some(fi) = nz(sfab) else { return "UnsupportedAccess".to_string() };
+                    let r: Result<(), Error> = (|| {
+                        let fabric = p.fabrics.fabric_mut(fi)?;
+                        fabric.groups_mut().key_map_replace([rs_matter::fabric::GroupKeyMapping { group_id: gid, group_key_set_id: 1 }].into_iter())?;
+                        if !p.failsafe.defers_store_for(fi.get()) {
+                            persist.store(fabric)?;
                         }
                         Ok(())
                     })();
